@@ -3,6 +3,7 @@ package main
 import (
 	"fmt"
 	"go/token"
+	"strings"
 
 	"golang.org/x/tools/go/ssa"
 )
@@ -587,6 +588,65 @@ func ruleClose(c *Ctx) *RuleResult {
 			}
 		}
 	})
+	// every clpush pushes: the compiler's close-stack heights count each declaration
+	// (including a generic for's hidden closing value), so the VM must push exactly one
+	// entry per clpush whatever the value is
+	var pushCall *ssa.Call
+	forEachInstr(run, func(ins ssa.Instruction) {
+		if call, ok := ins.(*ssa.Call); ok {
+			if cal := call.Call.StaticCallee(); cal != nil && cal.Name() == "push" && cal.Signature.Recv() != nil && strings.Contains(cal.Signature.Recv().Type().String(), "closeStack") {
+				pushCall = call
+			}
+		}
+	})
+	if pushCall == nil {
+		r.fail("close-push-missing", p.Pos(run.Pos()), "the interpreter loop no longer pushes onto the close stack")
+	} else {
+		// region entry: the nearest dominating block entered on the true edge of a GetF() test
+		var entry *ssa.BasicBlock
+		for b := pushCall.Block(); b != nil; b = b.Idom() {
+			id := b.Idom()
+			if id == nil {
+				break
+			}
+			if iff, ok := id.Instrs[len(id.Instrs)-1].(*ssa.If); ok && id.Succs[0] == b {
+				if cc, ok := iff.Cond.(*ssa.Call); ok && cc.Call.StaticCallee() != nil && cc.Call.StaticCallee().Name() == "GetF" {
+					entry = b
+					break
+				}
+			}
+		}
+		if entry == nil {
+			r.broken("R-CLOSE: the close-stack push is not under a GetF() branch of the interpreter loop (anchor moved?)")
+		} else {
+			// can the region be left (to a block it does not dominate) without passing the push?
+			seen := map[*ssa.BasicBlock]bool{entry: true}
+			q := []*ssa.BasicBlock{entry}
+			escaped := ""
+			for len(q) > 0 && escaped == "" {
+				b := q[0]
+				q = q[1:]
+				if b == pushCall.Block() {
+					continue
+				}
+				for _, s := range b.Succs {
+					if !entry.Dominates(s) {
+						escaped = p.InstrPos(firstPositioned(b))
+						break
+					}
+					if !seen[s] {
+						seen[s] = true
+						q = append(q, s)
+					}
+				}
+			}
+			if escaped == "" {
+				r.ok("every clpush pushes one entry onto the close stack (error exits aside)")
+			} else {
+				r.fail("close-push-conditional", escaped, "the clpush branch of the interpreter loop can continue without pushing onto the close stack: the compiler's close-stack heights count every to-be-closed declaration (a nil/false one and the hidden closing value of a generic for included), so after a skipped push every later truncation in that frame stops one entry short and pending values are closed late, in the wrong order, or with a later error")
+			}
+		}
+	}
 	if guardedByTruth && pushUsesTruth {
 		r.ok("push site and close site agree: a value is skipped exactly when it is nil or false (Truth)")
 	} else {
